@@ -76,6 +76,40 @@ def scenarios(which):
                     return dict(violation=True, cases=cases, what="different arguments were served from the cache", witness=[a, k])
                 if not cf.check_call_in_cache(*a, **k):
                     return dict(violation=True, cases=cases, what="check_call_in_cache False right after the call", witness=[a, k])
+            # the special ignore entries: '*' (surplus positionals), '**' (surplus keywords), the instance parameter of a bound method
+            # (seeded change C06-ignore-list-validated-at-decoration rejected them when the function is decorated)
+            vs = define("""
+            CALLS = []
+            def vs(x, *args, **kw):
+                CALLS.append(1)
+                return x
+            class K:
+                def m(self, x):
+                    CALLS.append(1)
+                    return x
+            """, "vs", "modignore")
+            vlog = vs.__globals__["CALLS"]
+            for ign, calls in ((["*"], [((1, 2, 3), {}), ((1, 9), {})]), (["**"], [((1,), {"a": 1}), ((1,), {"b": 2})]), (["x", "*", "**"], [((1, 2), {"a": 1}), ((5,), {})])):
+                cases += 1
+                del vlog[:]
+                try:
+                    cvs = mem.cache(vs, ignore=ign)
+                    for a, k in calls:
+                        cvs(*a, **k)
+                except Exception as e:
+                    return dict(violation=True, cases=cases, what="ignore=%r (valid for filter_args) is rejected: %r" % (ign, e), witness=dict(ignore=ign))
+                if len(vlog) != 1:
+                    return dict(violation=True, cases=cases, what="calls that differ only in ignored parts (ignore=%r) executed the body %d times" % (ign, len(vlog)), witness=dict(ignore=ign, calls=repr(calls)))
+            cases += 1
+            try:
+                k1, k2 = vs.__globals__["K"](), vs.__globals__["K"]()
+                del vlog[:]
+                mem.cache(k1.m, ignore=["self"])(4)
+                mem.cache(k2.m, ignore=["self"])(4)
+            except Exception as e:
+                return dict(violation=True, cases=cases, what="ignore=['self'] on a bound method is rejected: %r" % (e,), witness="bound method, ignore=['self']")
+            if len(vlog) != 1:
+                return dict(violation=True, cases=cases, what="bound methods of two instances with ignore=['self'] executed the body %d times" % len(vlog), witness="bound method, ignore=['self']")
             # arguments that are equal for Python (==, same hash()) but are different values: each has its own entry, in whatever order they
             # are seen by ONE wrapper (seeded change C02-args-digest-memo: digests memoised in a dict keyed by the raw arguments)
             tn = define("""
